@@ -1806,3 +1806,78 @@ def foreign_state_rule(ctx, rid, scope, min_instances=50):
             r.fail(f.qualname, "foreign-state", f.file, n.lineno, f.name, f"{why}: the owner's invalidation (cache clearing on a coordinate change, Need_Update, the observers) does not know this state, which survives every change of the object it was computed from")
         else:
             r.ok()
+
+
+def lazy_field_memo_rule(ctx, rid, scope, min_instances=1):
+    """A field filled on first use (`if self.__x is None: self.__x = <value>` in a method that is not the constructor) is a memo.
+    When its value is computed from something the user can assign later - a parameter descriptor of the class or a property
+    with a setter, read directly or through a local of the guarded block - and NO other method of the class hierarchy ever
+    stores to that field again (a reset), the memo survives the assignment: what is derived from it belongs to the old
+    parameters while everything computed live follows the new ones.  The idiom is only how memos are FOUND (a memo spelled
+    another way is not seen); the verdict rests on the two facts named: settable inputs, no second writer."""
+    repo = ctx.repo
+    r = ctx.rule(rid, "a field filled on first use from assignable parameters of its object has a second writer (a reset) somewhere in the class hierarchy", min_instances=min_instances)
+
+    def settable(ci, name):
+        for c in [ci] + list(ci.mro or []):
+            if c is None:
+                continue
+            if name in c.setters:
+                return True
+            ce = c.class_attrs.get(name)
+            if ce is not None and isinstance(ce, ast.Call) and (dotted(ce.func) or "").split(".")[-1].endswith("Parameter"):
+                return True
+        return False
+
+    for ci in sorted(repo.classes.values(), key=lambda c: c.qualname):
+        if not scope(ci):
+            continue
+        stores = {}  # attr -> [(method, node)]
+        for m in ci.methods.values():
+            for n in ast.walk(m.node):
+                tgts = n.targets if isinstance(n, ast.Assign) else ([n.target] if isinstance(n, (ast.AnnAssign, ast.AugAssign)) else [])
+                for t in tgts:
+                    for x in (t.elts if isinstance(t, ast.Tuple) else [t]):
+                        if isinstance(x, ast.Attribute) and isinstance(x.value, ast.Name) and x.value.id == "self":
+                            stores.setdefault(x.attr, []).append((m, n))
+        for m in ci.methods.values():
+            if m.name == "__init__":
+                continue
+            for n in ast.walk(m.node):
+                if not isinstance(n, ast.If):
+                    continue
+                tested = {x.attr for x in ast.walk(n.test) if isinstance(x, ast.Attribute) and isinstance(x.value, ast.Name) and x.value.id == "self"}
+                if not tested or not any(isinstance(x, ast.Constant) and x.value is None for x in ast.walk(n.test)):
+                    continue
+                body_stores = [(st, t) for st in n.body for st_ in [st] if isinstance(st, (ast.Assign, ast.AnnAssign)) for t in (st.targets if isinstance(st, ast.Assign) else [st.target])
+                               if isinstance(t, ast.Attribute) and isinstance(t.value, ast.Name) and t.value.id == "self" and t.attr in tested]
+                for st, t in body_stores:
+                    r.instance(fn=m.qualname)
+                    # what the stored value reads from self, through the locals of the guarded block
+                    local_src = {}
+                    for b in n.body:
+                        if isinstance(b, ast.Assign):
+                            for tt in b.targets:
+                                names = [e.id for e in (tt.elts if isinstance(tt, ast.Tuple) else [tt]) if isinstance(e, ast.Name)]
+                                for nm in names:
+                                    local_src.setdefault(nm, []).append(b.value)
+                    seen, todo, reads = set(), [st.value], set()
+                    while todo:
+                        e = todo.pop()
+                        for x in ast.walk(e):
+                            if isinstance(x, ast.Attribute) and isinstance(x.value, ast.Name) and x.value.id == "self":
+                                reads.add(x.attr)
+                            elif isinstance(x, ast.Name) and x.id in local_src and x.id not in seen:
+                                seen.add(x.id)
+                                todo.extend(local_src[x.id])
+                    inputs = sorted(a for a in reads if a != t.attr and settable(ci, a))
+                    writers = {w.name for w, _ in stores.get(t.attr, [])} - {"__init__", m.name}
+                    for c in ci.mro or []:
+                        if c is not None and c is not ci:
+                            for w in c.methods.values():
+                                if w.name != "__init__" and any(isinstance(x, ast.Attribute) and isinstance(x.ctx, ast.Store) and x.attr == t.attr for x in ast.walk(w.node)):
+                                    writers.add(w.name)
+                    if inputs and not writers:
+                        r.fail(m.qualname, f"lazy-memo:{t.attr}", m.file, st.lineno, f"{ci.name}.{m.name}", f"`self.{t.attr}` is filled on first use from the assignable parameter(s) {inputs} and no other method ever stores to it: after `obj.{inputs[0]} = ...` the kept value belongs to the old parameter while what is computed live follows the new one")
+                    else:
+                        r.ok(f"{m.qualname}: self.{t.attr} (inputs {inputs or 'none settable'}, other writers {sorted(writers) or 'none'})")
